@@ -1,6 +1,6 @@
 /-
   Model/TkFrom.lean — discopy/quantum/tk.py `from_tk.make_units_adjacent` (lines 289-308),
-  transcribed as it is (core Lean only).  All wires are single wires, so a swap diagram is the list
+  transcribed as it is after fix F30 (core Lean only).  All wires are single wires, so a swap diagram is the list
   of the offsets of its SWAP boxes (monoidal.py:487-514: `Id.swap(one wire, k wires)` = SWAP boxes
   at relative offsets 0 … k-1).
 -/
@@ -18,8 +18,10 @@ def muaLoop : Nat → Nat → List Nat → List Nat → Nat × List Nat
       muaLoop (if source ≤ offset then offset - 1 else offset) (i + 1) rest
         (acc ++ List.range' source (offset + i + 1 - 1 - source))
     else if source > offset + i + 1 then
-      -- tk.py:300-304  Id(cod[:target]) @ Id.swap(cod[target:target+1], cod[target+1:source+1]) @ …
-      muaLoop offset (i + 1) rest (acc ++ List.range' (offset + i + 1) (source - (offset + i + 1)))
+      -- tk.py:300-304 with fix F30  Id(cod[:target]) @ Id.swap(cod[target:source], cod[source:source+1]) @ …
+      -- (several wires past one: SWAP boxes at source-1, …, target, monoidal.py:513-514)
+      muaLoop offset (i + 1) rest
+        (acc ++ (List.range' (offset + i + 1) (source - (offset + i + 1))).reverse)
     else muaLoop offset (i + 1) rest acc          -- tk.py:305-306
 
 /-- `make_units_adjacent(tk_gate)` for a gate on the units `qs`: the offset at which the box is
